@@ -273,6 +273,10 @@ func (p *parser) setLeafNodeParsers() {
 }
 
 func (p *parser) check() error {
+	if len(p.tokens) == 0 {
+		return errors.New("empty expression error")
+	}
+
 	prefixNotation := !p.isInfixNotation()
 
 	last := len(p.tokens) - 1
